@@ -178,6 +178,8 @@ def iterations(fe, item, obs):
         if not its:
             its = [(empty, obs.raised)]
         return its
+    if fe in ("SyncTcp", "SyncSerial") and len(obs.pip_raised) > 1:     # a write longer than one recv(1024)
+        return [(False, x) for x in obs.pip_raised]
     if obs.pip_calls or obs.raised is not None:
         return [(empty, obs.raised)]
     return [(empty, None)]
